@@ -383,6 +383,14 @@ func analyse(src string, mode parser.Mode, mut []minijs.Token) (v verdict) {
 		v.fail = fmt.Sprintf("(d) %s; src=%s", is, show(src))
 		return v
 	}
+	for _, rn := range tree.Nodes {
+		if sl, ok := rn.Node.(*ast.StringLiteral); ok {
+			if bad := m04.BadHexEscape(sl.Literal); bad != "" {
+				v.fail = fmt.Sprintf("accepted the string literal %s with the malformed escape %q (ES5 7.8.4: \\x takes two, \\u four hexadecimal digits); src=%s", show(sl.Literal), bad, show(src))
+				return v
+			}
+		}
+	}
 	for _, is := range m04.CheckLeafText(tree, src, 1) {
 		v.fail = fmt.Sprintf("(d) %s; src=%s", is, show(src))
 		return v
